@@ -6,8 +6,7 @@ helper datatypes of the harness package `zcvdt` (wrap / marker-rejecting / marke
 namespace ZCV.Cfg
 open ZCV
 
-def familyName : DT.Family → Str
-  | .unix => "AF_UNIX".toList | .inet => "AF_INET".toList | .inet6 => "AF_INET6".toList
+def familyName (f : DT.Family) : Str := DT.familyStr f
 
 def hostPort (a : Str × Option Int) : Val :=
   .tup [.str a.1, match a.2 with | some p => .int p | none => .none]
